@@ -52,6 +52,7 @@ class Model:
         self.env = self.system.env
         self.rm = rm
         self.dev = {}
+        self.names = {}
         self.by_asset = {}
         self.groups = {}
         tr = tracer
@@ -76,7 +77,7 @@ class Model:
             k = d['kind']
             # a device with an upstream that does not exist yet is wired after all devices were created
             ups = [] if (d.get('late') or k in ('ginput', 'goutput')) else [self.dev[u] for u in d.get('ups', [])]
-            name = 'd%d' % d['id']
+            name = None if cfg.get('noname') else 'd%d' % d['id']      # default names contain the asset id
             if k == 'source':
                 budget = float('inf') if d.get('budget', INF) == INF else d['budget']
                 o = Source(name, Gen(d.get('pval', 0), d.get('bsrc', -1), d.get('bmix', False)), cycle_time=d['cyc'] * TICK,
@@ -129,6 +130,7 @@ class Model:
                 self.by_asset[o.id] = d['id']
                 o._vid = d['id']
                 o._vkind = k
+                self.names[str(o.name)] = 'd%d' % d['id']
                 self._callbacks(o, d)
         kinds = {x['id']: x['kind'] for x in cfg['devs']}
         for d in cfg['devs']:
